@@ -171,6 +171,7 @@ def showOutcome (o : Outcome (List Int)) : String :=
   match o with
   | .ok l => showIds l
   | .err .notFound => "err:NotFound"
+  | .err .invalidIndex => "err:InvalidIndex"
   | .err .other => "err:Other"
   | .panic "SearchQuery::slice" => "panic:search_query.rs"
   | .panic "LimitOffsetHandler::new" => "panic:db_search_handlers.rs"
@@ -193,6 +194,7 @@ def stepLine (legacy : Bool) (g : Graph) (line : String) : Graph × String :=
     | some a, some b =>
       match g.insertEdge a b with
       | .ok (id, g') => (g', "ok " ++ toString id)
+      | .err .invalidIndex => (g, "err:InvalidIndex")
       | _ => (g, "err:NotFound")
     | _, _ => (g, "bad-op")
   | ["remove", x] =>
